@@ -97,7 +97,11 @@ func (c *RuntimeContext) Ptr() uintptr {
 }
 
 func TakeRuntimeContext() *RuntimeContext {
-	return runtimeContextPool.Get().(*RuntimeContext)
+	ctx := runtimeContextPool.Get().(*RuntimeContext)
+	// a pooled context must not carry options of the previous call
+	// (context.Context, color scheme, debug writers) into the next one.
+	*ctx.Option = Option{}
+	return ctx
 }
 
 func ReleaseRuntimeContext(ctx *RuntimeContext) {
